@@ -267,7 +267,9 @@ class RouterAnalysis:
                 if leaf and (regex or found): continue
                 if not leaf and has_subject: continue
                 if regex and found: continue
-                dom = RouterDomain(dict(matches=matches, leaf=leaf, has_subject=has_subject, regex=regex, found=found))
+                orc = dict(matches=matches, leaf=leaf, has_subject=has_subject, regex=regex, found=found)
+                if found: orc['children_empty'] = False          # a child that is found is a child
+                dom = RouterDomain(orc)
                 res = run_paths(self.facts, f, dom)
                 row = f'(matches={matches}, leaf={leaf}, subject={has_subject}, next is regex={regex}, child found={found})'
                 for P, E in res:
@@ -321,7 +323,13 @@ class RouterAnalysis:
                             # the path returns without ever reaching the loop over the children
                             about_children = [c_ for c_, _v, _h in P.decisions if c_ is not None and 'm_children' in (c_.text() or '')]
                             pc = '; '.join(f'{(c_.text() or "")[:50]} = {_v}' for c_, _v, _h in P.decisions if c_ is not None)[:200]
-                            if about_children: self.add('RT.3', None, f'{short} row {row}: every child is visited under a regex level', f.shortloc(), f'the path leaves before the loop over the children after looking at m_children ({pc}): not followed')
+                            def _is_empty_test(c_, v_):
+                                x_ = c_
+                                while x_ is not None and x_.k in ('cast', 'paren') and x_.n('sub') is not None: x_ = x_.n('sub')
+                                return x_ is not None and x_.k == 'call' and x_.callee_base() == 'empty' and x_.n('object') is not None and x_.n('object').is_field('m_children', NODE) and v_ is True
+                            if about_children and all(_is_empty_test(c_, _v) for c_, _v, _h in P.decisions if c_ is not None and 'm_children' in (c_.text() or '')) and ret == Lin.const(0):
+                                self.add('RT.3', True, f'{short} row {row}: a node without children has nothing to visit and counts 0', f.shortloc(), '', key='RT.3|regex-none')
+                            elif about_children: self.add('RT.3', None, f'{short} row {row}: every child is visited under a regex level', f.shortloc(), f'the path leaves before the loop over the children after looking at m_children ({pc}): not followed')
                             else: self.add('RT.3', False, f'{short} row {row}: every child is visited under a regex level', f.shortloc(),
                                            f'the node returns {P.ret} without visiting its children although it matches and the next level is a pattern (path: {pc}): every key below this node is cut off from the delivery and the returned count is too low', key='RT.3|regex-all')
                             continue
